@@ -177,7 +177,7 @@ Section Write.
           set (st0 := mk_pstate (s_dirs st)
                         [ps_dot_prec (ms_rec dt (ms_ext_at DB p) dl 2 [0]) 0 1 34;
                          ps_dot_prec (ms_rec dt (ms_ext_at DB (removelast p)) (ms_dlen_at t (removelast p)) 2 [1]) 1 1 68]
-                        (tl (s_queue st)) (s_inodes st) (s_e2i st) (ms_ext_at DB p :: s_seen st) 3 (s_lastbyte st)).
+                        (tl (s_queue st)) (s_inodes st) (s_e2i st) (ps_blocks_of (ms_ext_at DB p) dl ++ s_seen st) 3 (s_lastbyte st)).
           assert (Hd1 : s_dirs st1 = s_dirs st ++ [s_cur (ps_spec_kids dt DB FB p 0 kids cache st0)])
             by (unfold st1; apply ps_spec_dir_dirs).
           assert (Hpl : forall i c, nth_error kids i = Some c -> ps_plain (Account.name_of c)).
